@@ -194,6 +194,7 @@ type shape struct {
 	Sub  []*shape `json:"sub,omitempty"`
 	Path string   `json:"path,omitempty"` // source expression written/read
 	Why  string   `json:"why,omitempty"`
+	Var  string   `json:"var,omitempty"`  // loop variable (loops), so that paths can be qualified
 }
 
 func opaque(why string) *shape { return &shape{K: "opaque", Why: why} }
@@ -445,6 +446,19 @@ func translateStmt(pkg string, st ast.Stmt, en env, enc bool, cvar string) []*sh
 		}
 	case *ast.ExprStmt:
 		if call, ok := s.X.(*ast.CallExpr); ok {
+			if id, ok := call.Fun.(*ast.Ident); ok && id.Name == "nilSigs" {
+				var out []*shape
+				for _, a := range call.Args {
+					out = append(out, &shape{K: "nil", Path: src(stripAddr(a))})
+				}
+				return out
+			}
+			// x.(EncoderTo).EncodeTo(e): dynamically typed field
+			if sel, ok := call.Fun.(*ast.SelectorExpr); ok && len(call.Args) == 1 && isCodecVar(call.Args[0], cvar) {
+				if ta, ok := sel.X.(*ast.TypeAssertExpr); ok {
+					return []*shape{{K: "dyn", Path: src(ta.X)}}
+				}
+			}
 			// copy(x.F[:], d.ReadBytes()): a length-prefixed byte string copied into a fixed array
 			if id, ok := call.Fun.(*ast.Ident); ok && id.Name == "copy" && len(call.Args) == 2 && !enc {
 				if inner, ok := call.Args[1].(*ast.CallExpr); ok && src(inner) == cvar+".ReadBytes()" {
@@ -453,8 +467,22 @@ func translateStmt(pkg string, st ast.Stmt, en env, enc bool, cvar string) []*sh
 			}
 			return translateCall(pkg, call, en, enc, cvar, "")
 		}
+	case *ast.TypeSwitchStmt:
+		if !usesCodec(s, cvar) {
+			// normalisation before encoding (e.g. V2TransactionSemantics strips signatures and proofs per resolution kind)
+			var out []*shape
+			for _, cc := range s.Body.List {
+				if c, ok := cc.(*ast.CaseClause); ok {
+					out = append(out, translateBody(pkg, c.Body, en, enc, cvar)...)
+				}
+			}
+			return out
+		}
 	case *ast.AssignStmt:
 		if !usesCodec(s, cvar) {
+			if len(s.Lhs) == 1 && len(s.Rhs) == 1 && src(s.Rhs[0]) == "nil" {
+				return []*shape{{K: "nil", Path: src(s.Lhs[0])}}
+			}
 			return nil // pure assignment (normalisation such as the revision payout sentinel): writes/reads nothing
 		}
 		if len(s.Lhs) == 1 && len(s.Rhs) == 1 {
@@ -495,7 +523,11 @@ func translateStmt(pkg string, st ast.Stmt, en env, enc bool, cvar string) []*sh
 				if id, ok := s.Value.(*ast.Ident); ok {
 					en2[id.Name] = et
 				}
-				return []*shape{{K: "loop", Sub: translateBody(pkg, s.Body.List, en2, enc, cvar), Path: src(s.X)}}
+				lv := ""
+				if id, ok := s.Value.(*ast.Ident); ok {
+					lv = id.Name
+				}
+				return []*shape{{K: "loop", Sub: translateBody(pkg, s.Body.List, en2, enc, cvar), Path: src(s.X), Var: lv}}
 			}
 		}
 	}
@@ -553,7 +585,7 @@ func (s *shape) refs(out map[string]bool) {
 	}
 }
 func (s *shape) isOpaque() bool {
-	if s.K == "opaque" {
+	if s.K == "opaque" || s.K == "loop" || s.K == "nil" || s.K == "dyn" {
 		return true
 	}
 	for _, x := range s.Sub {
@@ -574,6 +606,50 @@ func (s *shape) paths(prefix string, out *[]string) {
 	}
 }
 
+func qualify(path string, subst [][2]string) string {
+	for i := len(subst) - 1; i >= 0; i-- {
+		v, by := subst[i][0], subst[i][1]
+		if v == "" {
+			continue
+		}
+		// replace the identifier v when it starts a selector chain or stands alone
+		var b strings.Builder
+		for j := 0; j < len(path); {
+			if strings.HasPrefix(path[j:], v) && (j == 0 || !isIdent(path[j-1])) && (j+len(v) == len(path) || !isIdent(path[j+len(v)])) {
+				b.WriteString(by)
+				j += len(v)
+			} else {
+				b.WriteByte(path[j])
+				j++
+			}
+		}
+		path = b.String()
+	}
+	return path
+}
+func isIdent(c byte) bool { return c == '_' || c >= '0' && c <= '9' || c >= 'a' && c <= 'z' || c >= 'A' && c <= 'Z' }
+
+func (s *shape) written(subst [][2]string, wr, nl *[]string) {
+	switch s.K {
+	case "loop":
+		sub := append(subst, [2]string{s.Var, qualify(s.Path, subst) + "[]"})
+		for _, x := range s.Sub {
+			x.written(sub, wr, nl)
+		}
+	case "seq":
+		for _, x := range s.Sub {
+			x.written(subst, wr, nl)
+		}
+	case "nil":
+		*nl = append(*nl, qualify(s.Path, subst))
+	case "opaque":
+	default:
+		if s.Path != "" {
+			*wr = append(*wr, qualify(s.Path, subst))
+		}
+	}
+}
+
 type typeOut struct {
 	Q       string   `json:"type"`
 	Enc     *shape   `json:"enc"`
@@ -581,6 +657,8 @@ type typeOut struct {
 	Fields  []string `json:"fields"`
 	EncPaths []string `json:"enc_paths"`
 	Opaque  bool     `json:"opaque"`
+	Written []string `json:"written"`
+	Nilled  []string `json:"nilled"`
 }
 
 func main() {
@@ -691,6 +769,7 @@ func main() {
 			}
 			to.Opaque = to.Enc.isOpaque() || to.Dec.isOpaque()
 			to.Enc.paths("", &to.EncPaths)
+			to.Enc.written(nil, &to.Written, &to.Nilled)
 			if st, ok := underlying(rtype{dir, &ast.Ident{Name: n}}).e.(*ast.StructType); ok {
 				for _, f := range st.Fields.List {
 					for _, fn := range f.Names {
@@ -788,6 +867,24 @@ func main() {
 			ps[i] = coqStr(f)
 		}
 		fmt.Fprintf(&b, "  (%s, [%s], [%s])", coqStr(t.Q), strings.Join(fs, "; "), strings.Join(ps, "; "))
+	}
+	b.WriteString("].\n")
+	b.WriteString("\n(* every expression each encoder writes (loop variables qualified) and every field it blanks first *)\nDefinition gen_written : list (string * list string * list string) := [\n")
+	first = true
+	for _, t := range order {
+		if !first {
+			b.WriteString(";\n")
+		}
+		first = false
+		ws := make([]string, len(t.Written))
+		for i, f := range t.Written {
+			ws[i] = coqStr(f)
+		}
+		ns := make([]string, len(t.Nilled))
+		for i, f := range t.Nilled {
+			ns[i] = coqStr(f)
+		}
+		fmt.Fprintf(&b, "  (%s, [%s], [%s])", coqStr(t.Q), strings.Join(ws, "; "), strings.Join(ns, "; "))
 	}
 	b.WriteString("].\n")
 	writeIfChanged(filepath.Join(*out, "Schemas.v"), b.String())
